@@ -124,6 +124,7 @@ struct Manifest {
       if (s.name == n) return &s;
     return nullptr;
   }
+  bool regenStmt = false;   // 'build build.ninja: ccgen manifest.in' - the manifest is itself a product
   std::string text() const {
     std::string t = "# generated\nrule cc\n  command = /sim/bin/cc $name -s $salt -- $in\n  description = CC $out\n";
     t += "rule ccdep\n  command = /sim/bin/cc $name -s $salt -- $in\n  depfile = $dep\n  deps = gcc\n";
@@ -152,6 +153,7 @@ struct Manifest {
         if (s.depfile) t += "  dep = " + s.outs[0] + ".d\n";
       }
     }
+    if (regenStmt) t += "build build.ninja: ccgen manifest.in\n  name = REGEN\n  salt = 0\n";
     if (!defaults.empty()) {
       t += "default";
       for (auto& d : defaults) t += " " + d;
@@ -188,6 +190,8 @@ struct Run {
   int jobs = 2;
   bool useDb = true;
   bool regenerate = true;
+  bool regenStmt = false;
+  int regenerations = 0;
   int buildNo = 0;
   std::map<std::string, std::string> failFlags;
   std::map<std::string, Rec> recs;
@@ -293,6 +297,15 @@ struct Run {
       return 127;
     }
     std::string name = words[1];
+    if (name == "REGEN") {
+      ev("tool-start REGEN");
+      std::string text;
+      if (simfs::fs().readFile(c.cwd + "/manifest.in", &text) != 0) return 1;
+      simfs::fs().writeFile(c.cwd + "/build.ninja", text);
+      execs.push_back({buildNo, "REGEN", true});
+      ev("tool-end REGEN ok");
+      return 0;
+    }
     const Stmt* st = man.byName(name);
     ev("tool-start " + name);
     if (!st) return 3;
@@ -346,7 +359,9 @@ struct Run {
     jobs = (int)cfg->getn("jobs", 2);
     useDb = cfg->getb("db", true);
     regenerate = cfg->getb("regenerate", true);
+    regenStmt = regenerate && cfg->getb("regen_stmt", false);
     if (const Json* m = plan.find("manifest")) man = Manifest::fromJson(*m);
+    man.regenStmt = regenStmt;
     simfs::fs().mkdirs(kWork);
     for (auto& s : plan.geta("sources")) simfs::fs().writeFile(abs(s.gets("path")), util::unhex(s.gets("content")));
     util::Hasher sh;
@@ -365,7 +380,14 @@ struct Run {
 
   void opBuild(const Json& op) {
     if (manDirty) {
-      simfs::fs().writeFile(std::string(kWork) + "/build.ninja", man.text());
+      if (man.regenStmt) {
+        // the manifest is generated: edits go to its source; the very first time both exist (a configured build tree)
+        bool first = !stateOf("build.ninja").exists;
+        simfs::fs().writeFile(std::string(kWork) + "/manifest.in", man.text());
+        if (first) simfs::fs().writeFile(std::string(kWork) + "/build.ninja", man.text());
+      } else {
+        simfs::fs().writeFile(std::string(kWork) + "/build.ninja", man.text());
+      }
       manDirty = false;
     }
     std::vector<std::string> targets;
@@ -553,6 +575,13 @@ struct Run {
       if (pFail[s->name] != N) possibleFailure = true;
     }
 
+    // the manifest itself, when it is a product: a generator statement, re-made iff older than its source
+    bool predictRegen = false;
+    if (man.regenStmt) {
+      FileState mi = stateOf("manifest.in"), bn = stateOf("build.ninja");
+      predictRegen = !bn.exists || bn.mtime < mi.mtime;
+    }
+
     // ---- the invocation
     size_t execFrom = execs.size();
     std::vector<std::string> args = {"-C", kWork, "--jobs", std::to_string(jobs)};
@@ -579,6 +608,14 @@ struct Run {
       if (execs[i].ok) ranOk.insert(execs[i].name);
     }
     res.counters["commands_executed"] += ran.size();
+    if (man.regenStmt) {
+      bool did = ran.count("REGEN") > 0;
+      if (did) regenerations++;
+      if (predictRegen && !did) viol("C18.3", "the manifest was not regenerated although its source is newer");
+      if (!predictRegen && did) viol("C18.2", "the manifest was regenerated although its source did not change");
+      ran.erase("REGEN");
+      ranOk.erase("REGEN");
+    }
     std::set<std::string> failed;
     for (auto& n : ran)
       if (!ranOk.count(n)) failed.insert(n);
@@ -703,6 +740,7 @@ struct Run {
       } else if (kind == "manifest") {
         if (const Json* m = op.find("manifest")) {
           man = Manifest::fromJson(*m);
+          man.regenStmt = regenStmt;
           manDirty = true;
           manifestEdits++;
           ev("edit-manifest " + op.gets("kind"));
@@ -750,7 +788,9 @@ public:
     Json cfg = Json::obj();
     cfg.set("jobs", (int64_t)rng.range(1, 4));
     cfg.setb("db", rng.chance(850));
-    cfg.setb("regenerate", rng.chance(600));
+    bool regen = rng.chance(600);
+    cfg.setb("regenerate", regen);
+    cfg.setb("regen_stmt", regen && rng.chance(400));
     cfg.set("policy", (int64_t)rng.below(3));
     static const int sticky[] = {500, 900, 990};
     cfg.set("sticky", sticky[rng.below(3)]);
@@ -984,6 +1024,7 @@ public:
     c["commands_skipped"] += (uint64_t)run.skipped;
     c["invocations_with_failures"] += (uint64_t)run.failures;
     c["manifest_edits"] += (uint64_t)run.manifestEdits;
+    c["manifest_regenerations"] += (uint64_t)run.regenerations;
     c["restat_outputs_left_alone"] += (uint64_t)run.restatKept;
     c["leaked_descriptors"] += simos::fds().size();
     run.res.nontrivial = run.buildNo >= 2 && run.skipped > 0 && os.spawns > 0;
